@@ -250,7 +250,7 @@ def run(ctx):
         tlc(ctx, "c28_j1b", NS=2, NI=2, L=2, max_muts=1, extra=1, mgs=(1, 3))
     if not q:
         tlc(ctx, "c28_j1c", NS=1, NI=0, L=6, max_muts=0, mgs=(2, 5), free=True, splits=(False,), flanks=(True,))
-        tlc(ctx, "c28_j1d", NS=3, NI=2, L=2, max_muts=1, mgs=(2,), flanks=(True,), splits=(True,))
+        tlc(ctx, "c28_j1d", NS=3, NI=2, L=2, max_muts=1, extra=1, mgs=(2,), flanks=(True,), splits=(True,))
     # J2
     insts = tlc(ctx, "c28_j2a", emit=True, NS=2, NI=2, L=2, max_muts=1, extra=0 if q else 1,
                 mgs=(3,) if q else (1, 3))
